@@ -16,7 +16,8 @@
 //                  build_heap(vector&&); on ANY heap state)
 //                  setp k:p,k:p,..           (change priorities of keys NOT in the heap)
 //                  reprio k:p,..             (change priorities, then update_all())
-// addressable:     additionally  remove k | contains k | upd k p (prio[k]=p; update(k))
+//                  pushat i  (push(heap_[i]) / push(top()): the argument aliases a stored element)
+// addressable:     additionally  remove k | contains k | upd k p (prio[k]=p; update(k)) | updat i p (update(heap_[i]))
 // Answer = "<ret> ; h=<heap_ array>" (+ " ; hd=<handles_ array, x = not_present>").
 //
 // radix heap ops:  push k | emplace k | pushb k | emplaceb k (hint overloads push_to_bucket / emplace_in_bucket
@@ -271,6 +272,16 @@ struct DaryH : IHeap {
             if (k % 2) h.push(T::make(static_cast<unsigned>(k))); else { K kk = T::make(static_cast<unsigned>(k)); h.push(kk); }
             ref.insert(static_cast<unsigned>(k));
         }
+        else if (o == "pushat" && t.size() == 2) {
+            // push(const key_type&) with an argument that ALIASES a stored element: push(h.top()) for slot 0,
+            // push(heap_[i]) in general (the vector may or may not reallocate)
+            long long i = std::stoll(t[1]);
+            if (i < 0 || static_cast<size_t>(i) >= h.heap_.size()) { vh::answer("bad-op"); return; }
+            long long id = T::id(h.heap_[static_cast<size_t>(i)]);
+            if (id < 0) { vh::answer("bad-op"); return; }
+            if (i == 0) h.push(h.top()); else h.push(h.heap_[static_cast<size_t>(i)]);
+            ref.insert(static_cast<unsigned>(id));
+        }
         else if (o == "pop" || o == "xtop" || o == "top") {
             if (ref.empty()) { vh::answer("bad-op"); return; }
             long long tpi = T::id(h.top());
@@ -422,6 +433,15 @@ struct AddrH : IHeap {
             long long k = std::stoll(t[1]);
             if (k < 0 || k > 200) { vh::answer("bad-op"); return; }
             ret = h.contains(static_cast<KT>(k)) ? "1" : "0";
+        }
+        else if (o == "updat" && t.size() == 3) {
+            // update(key) with the key read through a reference into the heap's own storage
+            long long i = std::stoll(t[1]);
+            if (i < 0 || static_cast<size_t>(i) >= h.heap_.size()) { vh::answer("bad-op"); return; }
+            unsigned kk = static_cast<unsigned>(h.heap_[static_cast<size_t>(i)]);
+            if (!key_ok(kk) || !ref.count(kk) || !h.contains(static_cast<KT>(kk))) { vh::answer("bad-op"); return; }
+            g_prio[kk] = std::stoll(t[2]);
+            if (i == 0) h.update(h.top()); else h.update(h.heap_[static_cast<size_t>(i)]);
         }
         else if (o == "upd" && t.size() == 3) {
             long long k = std::stoll(t[1]);
@@ -619,6 +639,25 @@ struct RadixH : IHeap {
                 ref.insert(k);
                 pay[p] = k;
             }
+        }
+        else if (o == "pushtop" || o == "pushbtop" || o == "emplacetop") {
+            // the by-reference entry points called with references to the STORED top element (the bucket vector
+            // may or may not reallocate): duplicates the minimum, same payload
+            if (ref.empty() || h.size() == 0) { vh::answer("bad-op"); return; }
+            wide mn = *ref.begin();
+            const auto& e = h.top();
+            has_frontier = true; frontier = mn;
+            wide k = static_cast<wide>(e.first);
+            bool plive = e.second.live;
+            std::uint32_t pid = e.second.k;
+            size_t idx;
+            if (o == "pushtop") idx = h.push(e);
+            else if (o == "pushbtop") { idx = h.get_bucket(e); h.push_to_bucket(idx, e); }
+            else idx = h.emplace(e.first, e.first, e.second);
+            ret = std::to_string(idx);
+            if (k != mn) vh::viol("radix top " + show_wide(k) + " != minimum " + show_wide(mn) + " after " + line);
+            ref.insert(k);
+            if (plive) pay[pid] = k;
         }
         else if (o == "top" || o == "pop" || o == "swap" || o == "peak") {
             if (ref.empty() || h.size() == 0) { vh::answer("bad-op"); return; }
